@@ -60,6 +60,10 @@ func checkC20(w *World, r *Report) {
 	roots := append(append(append([]*ssa.Function{}, flatten(ro.MSG)...), flatten(ro.VB)...), flatten(ro.QRY)...)
 	iv.Run(roots, "MSG+VB+QRY")
 	iv.Finish()
+	if w.Tier == "thorough" {
+		r.Rule("C20.discovery", "P4", "thorough tier: every distinct dependency function called on the message / ValidateBasic / query trees is either an inventory class or in the reviewed table (the allow-list is closed)", 100)
+		iv.Discover(roots, "C20.discovery", "MSG+VB+QRY")
+	}
 
 	// ---------- C20.nilfield ----------
 	nsinks, nderived := 0, 0
